@@ -134,7 +134,7 @@ def check_result(tag, net, res, mode, stats):
         for o in cl["obs"]:
             omitted_any = any((q["xy"] == "adj" and not q["give_xy"]) or (q["z"] == "adj" and not q["give_z"]) for q in net["points"])
             # (computed approximate coordinates are as inexact as perturbed ones)
-            if o["t"] == "z-angle" and (o.get("from_dh") or o.get("to_dh")) and (delta > 0 or omitted_any):
+            if o["t"] == "z-angle" and (o.get("from_dh") or o.get("to_dh") or cl.get("from_dh")) and (delta > 0 or omitted_any):
                 sight = nm.hdist(P[o.get("from", cl["from"])], P[o["to"]])
                 tolc = max(tolc, 2.0 * 1.571e-7 * sight)
     for p in net["points"]:
